@@ -408,7 +408,7 @@ func C09() *check.Property {
 		Title:    "Context flows from Subscribe through every callback and is never nil",
 		Patterns: cat(CorePatterns, PluginPkgs, []string{PromPkg}, RatePkgs),
 		Scope:    []string{ro},
-		Rules:    []check.Rule{ruleCtxProvenance(), ruleNoFreshContext(), ruleCtxPairing(), ruleDeadContextStore(), ruleSlotCtxArgument(), ruleCallbackCtxUsed()},
+		Rules:    []check.Rule{ruleCtxProvenance(), ruleNoFreshContext(), ruleCtxPairing(), ruleDeadContextStore(), ruleSlotCtxArgument(), ruleCallbackCtxUsed(), ruleContextRewriterUniform()},
 		Explanation: "Static def-use classification of every context operand. Sinks: the context argument of each upstream SubscribeWithContext and of each Next/Error/Complete notification in every subscribe closure " +
 			"(through inlined helpers and local closures), plus the same calls in the subjects, the subscriber and the connectable observable. Each operand is traced through assignments, tuple fields (lo.T2), slices/channels of tuples, " +
 			"atomic.Value, struct fields, closure and helper parameters to its origins; allowed origins are the subscriber context, the slot context, user-callback results and context.With* of those; Background/TODO/nil and " +
@@ -988,7 +988,111 @@ func ruleCallbackCtxUsed() check.Rule {
 					})
 				}
 			}
+			// re-subscribing loops: when a user callback hands back the context for the next pass, the pass is subscribed with it
+			for _, sc := range m.SCs {
+				if sc.Ctx0 == nil {
+					continue
+				}
+				info := sc.Pkg.TypesInfo
+				passCtx := false
+				for _, u := range sc.UserCalls {
+					if as, ok := m.Parent(u.Pkg, u.Call).(*ast.AssignStmt); ok {
+						for _, l := range as.Lhs {
+							if id, ok := l.(*ast.Ident); ok {
+								if v, ok := objOf(info, id).(*types.Var); ok && model.IsContext(v.Type()) {
+									passCtx = true
+								}
+							}
+						}
+					}
+				}
+				if !passCtx {
+					continue
+				}
+				for _, s := range sc.SubSites {
+					if !s.InLoop || s.CtxArg == nil {
+						continue
+					}
+					n++
+					key := s.Key + "/pass-ctx"
+					if reachesOnlySubscriberCtx(m, s.Pkg, s.CtxArg, s.Call, sc.Ctx0) {
+						c.Report(c.Armed(sc), key, s.Pos, "every pass of this loop is subscribed with the subscription-time context %s although a user callback returns the context for the next pass: from the second pass on neither the source nor its notifications see what the callback attached", sc.Ctx0.Name())
+					} else if c.Armed(sc) {
+						c.OK(key, s.Pos, "the pass is subscribed with the loop's own context variable")
+					}
+				}
+			}
 			c.Inc("returned_ctx_emissions", n)
+		},
+	}
+}
+
+// contextRewriters: operators whose definition is to replace / extend the context of every notification kind
+// (instances confirmed by reading and frozen; ContextWithTimeout/Deadline/ContextMap rewrite values only, by design).
+var contextRewriters = map[string]string{
+	"ro.ContextWithValue": "attaches (k, v) to the context of values, errors and completion alike",
+	"ro.ContextReset":     "replaces the context of values, errors and completion alike",
+}
+
+// CONTEXT-REWRITER-UNIFORM
+func ruleContextRewriterUniform() check.Rule {
+	return check.Rule{
+		Name:        "CONTEXT-REWRITER-UNIFORM",
+		FamilyShape: true,
+		Doc:         "the operators whose definition is to rewrite the context of every notification (ContextWithValue, ContextReset) do so in all three callbacks: none of them forwards a notification with the unmodified context it received (a method value of the destination, or the slot's own context parameter without a reaching re-assignment)",
+		Run: func(c *check.Ctx) {
+			m := c.M
+			n := 0
+			for name, why := range contextRewriters {
+				sc := m.SCByName(name)
+				if sc == nil {
+					c.Info(name+"/rewrites", m.Obj.Ro.Syntax[0].Pos(), "operator not found (family-shape rule: no alarm)")
+					continue
+				}
+				info := sc.Pkg.TypesInfo
+				for _, e := range sc.Emits {
+					if !e.ToDest || e.Ctx == nil || e.Ctx.Kind != model.KSrc {
+						continue
+					}
+					n++
+					key := e.Key + "/rewrites-ctx"
+					if e.Forwarder {
+						c.Violation(key, e.Pos, "%s %s, but its %s callback is the destination's own method: that notification keeps the context it arrived with", name, why, model.SlotNames[e.Kind])
+						continue
+					}
+					// the operand must not be the slot's context parameter as received
+					unchanged := false
+					if id, ok := ast.Unparen(e.CtxArg).(*ast.Ident); ok {
+						if v, ok := objOf(info, id).(*types.Var); ok {
+							fn := innermostFunc(m, e.Pkg, e.Node)
+							if ft := funcType(fn); ft != nil {
+								for _, pv := range model.FlattenParams(info, ft.Params) {
+									if pv == v {
+										// a parameter: is there a reaching re-assignment before the emission?
+										reassigned := false
+										for _, d := range m.Defs[v] {
+											if d.Node != nil && d.Node.Pos() < e.Node.Pos() && innermostFunc(m, e.Pkg, d.Node) == fn {
+												dn := d.Node
+												if pathsPassBefore(funcBody(fn), e.Node, func(nd ast.Node) bool { return nd.Pos() <= dn.Pos() && dn.End() <= nd.End() }) {
+													reassigned = true
+												}
+											}
+										}
+										unchanged = !reassigned
+									}
+								}
+							}
+						}
+					}
+					if unchanged {
+						c.Violation(key, e.Pos, "%s %s, but this %s notification is forwarded with the context exactly as it was received", name, why, model.SlotNames[e.Kind])
+					} else {
+						c.OK(key, e.Pos, "the %s notification carries a rewritten context", model.SlotNames[e.Kind])
+					}
+				}
+			}
+			c.Inc("context_rewriter_emissions", n)
+			c.Note("CONTEXT-REWRITER-UNIFORM recognised=%d emissions", n)
 		},
 	}
 }
@@ -1031,6 +1135,12 @@ func reachesOnlySubscriberCtx(m *model.Model, p *packages.Package, e ast.Expr, a
 			body := funcBody(fn)
 			if body == nil {
 				return false
+			}
+			// a variable that is also assigned in another function (a callback of the operator) may hold something else
+			for i := range m.Defs[v] {
+				if d := m.Defs[v][i]; d.Node != nil && innermostFunc(m, p, d.Node) != fn {
+					return false
+				}
 			}
 			// assignments to v inside fn, before the use
 			var last *model.DefSite
